@@ -166,6 +166,15 @@ func (ir *IntrospectionResolver) resolveType(schema *ast.Schema, typ *ast.Type, 
 			}
 			result[f.Alias] = interfaces
 		case "possibleTypes":
+			// the implementations of an interface are recorded in the schema, not in the definition
+			if namedType.Kind == ast.Interface {
+				types := []map[string]interface{}{}
+				for _, t := range schema.PossibleTypes[namedType.Name] {
+					types = append(types, ir.resolveType(schema, &ast.Type{NamedType: t.Name}, f.SelectionSet))
+				}
+				result[f.Alias] = types
+				continue
+			}
 			if len(namedType.Types) > 0 {
 				types := []map[string]interface{}{}
 				for _, t := range namedType.Types {
